@@ -14,3 +14,4 @@ func (s *Sched) Install()                    {}
 func Uninstall()                             {}
 func (s *Sched) Signature() uint64           { return 0 }
 func (s *Sched) Total() uint64               { return 0 }
+func (s *Sched) HitsSnapshot() map[string]int { return s.Hits }
